@@ -240,6 +240,7 @@ def run(ctx):
             ctx.validated()
     native_choice(ctx, rng)
     models(ctx, rng)
+    irregular_native_binning(ctx)
 
 
 def native_choice(ctx, rng):
@@ -273,6 +274,60 @@ def two_grid_spec(rng, tie=False):
     spec['wn'] = grids[0]
     spec['T'] = [rng.uniform(500, 2000) for _ in range(spec['nlayers'])]
     return spec
+
+
+IRREGULAR_SIG = 'binning:native-bin-edges-not-monotone'
+IRREGULAR_WHAT = ('binning the restricted result differs from binning the full result when the native grid is so '
+                  'irregular that its bins (centre +/- half the mid-point width, as FluxBinner.bindown builds them) have '
+                  'non-monotone edges: the binner locates the contributing native bins by binary search on those edges, '
+                  'so the bins it averages depend on the layout of the whole array')
+
+
+def edges_monotone(g):
+    """the native bins FluxBinner derives from a grid without explicit widths have ascending lower and upper edges"""
+    from taurex.util.util import compute_bin_edges
+    g = np.asarray(g, float)
+    w = compute_bin_edges(g)[-1]
+    return bool(np.all(np.diff(g - w / 2) >= 0) and np.all(np.diff(g + w / 2) >= 0))
+
+
+def irregular_native_binning(ctx):
+    """a fixed, model-free demonstration of the known finding (independent of VERIF_SEED), and its converse as an
+    oracle: with monotone native bin edges the binning clause holds on the binner alone"""
+    import random
+    from taurex.binning import FluxBinner
+    from taurex.util.util import clip_native_to_wngrid
+    rng = random.Random(12345)
+    shown = False
+    for t in range(1200):
+        n = rng.choice([40, 80])
+        g = np.sort(np.array([rng.uniform(300, 4000) for _ in range(n)]))
+        if t % 3 == 0:
+            g = np.logspace(math.log10(g[0]), math.log10(g[-1]), n)       # a regular grid: monotone edges
+        f = 1e-3 * np.exp(-g / 3000.0)
+        obs = np.linspace(rng.uniform(g[0], g[n // 3]), rng.uniform(g[2 * n // 3], g[-1]), rng.choice([3, 4, 6]))
+        if not (np.max(np.diff(g)) < 0.5 * np.min(np.diff(obs)) / 2):
+            continue
+        gr = clip_native_to_wngrid(g, obs)
+        idx = np.searchsorted(g, gr)
+        b = FluxBinner(obs)
+        with np.errstate(all='ignore'):
+            b1, b2 = b.bindown(gr, f[idx])[1], b.bindown(g, f)[1]
+        same = np.allclose(b1, b2, rtol=1e-9, atol=0, equal_nan=True)
+        mono = edges_monotone(g) and edges_monotone(gr)
+        rp = dict(kind='binner-only', native=g, observation=obs)
+        if mono:
+            ctx.case(('binner-only', t), nontrivial=len(gr) < len(g))
+            if not same:
+                ctx.violation('binning', 'flux binner alone, native bin edges monotone: binning the clipped grid %r '
+                              'differs from binning the full grid %r' % (b1, b2), replay=rp)
+            else:
+                ctx.validated()
+        elif not same and not shown:
+            shown = True
+            ctx.case(('binner-only-irregular', t))
+            ctx.violation(IRREGULAR_SIG, IRREGULAR_WHAT + ' (fixed instance: %d irregular native points, %d observation '
+                          'bins: %r vs %r)' % (n, len(obs), b1, b2), replay=rp)
 
 
 def size_matched_window(rng, grid, m):
@@ -382,8 +437,13 @@ def models(ctx, rng):
                       'binning: premises of C13_binning_local NOT met on the instance (clause checked by the oracle only)')
             tol = slack + (1e-9 + (math.exp(-10) if em else 0)) * np.abs(b2)
             if np.any(np.abs(b1 - b2) > tol):
-                ctx.violation('binning', 'binning the restricted result %r differs from binning the full result %r'
-                              % (b1, b2), replay=rp)
+                if not (edges_monotone(gfull) and edges_monotone(grest)):
+                    # known finding (see irregular_native_binning): not the restriction, the flux binner's window search
+                    ctx.violation(IRREGULAR_SIG, IRREGULAR_WHAT + ' (here: binned restricted result %r, binned full '
+                                  'result %r)' % (b1, b2), replay=rp)
+                else:
+                    ctx.violation('binning', 'binning the restricted result %r differs from binning the full result %r'
+                                  % (b1, b2), replay=rp)
             else:
                 ctx.validated()
         ctx.count('model:' + ('emission' if em else 'transmission'))
